@@ -49,7 +49,7 @@ func c15Build(seed uint64) c15tree {
 		// one of many Make types with nested pointers (resolved on first draw): with 20 of them most rounds of this
 		// family are the first use of their type in this process
 		gx = mkFresh[(seed/7)%uint64(len(mkFresh))]()
-	case seed%7 == 5:
+	case seed%7 == 5, seed%7 == 1:
 		gx = c15DeepCustom(r)
 	}
 	for tries := 0; gx == nil; tries++ {
@@ -152,8 +152,37 @@ func c15Run(t *testing.T, sc Scenario, res *Result) {
 			rapid.Check(tbs[g], prop)
 		}(g)
 	}
+	var neighbour *recTB
+	if sc.Seed%7 == 1 {
+		// a neighbour whose OWN property fails legitimately, by non-fatal failures signalled inside a Custom generator
+		// function (on that call's T), while the other checks keep hundreds of Custom calls in flight: nothing of
+		// its failures may show up in them
+		neighbour = newTB("C15_neighbour")
+		failing := rapid.Custom(func(t *rapid.T) int {
+			v := rapid.IntRange(0, 1000).Draw(t, "n")
+			if v%3 == 0 {
+				t.Errorf("the neighbour's own failure (%d)", v)
+			}
+			return v
+		})
+		wg.Add(1)
+		go func() {
+			defer wg.Done()
+			<-start
+			for i := 0; i < 6 && !neighbour.Failed(); i++ {
+				rapid.Check(neighbour, func(t *rapid.T) {
+					tr.gen.Draw(t, "shared")
+					failing.Draw(t, "failing")
+				})
+			}
+		}()
+		res.inc("rounds_with_a_failing_neighbour")
+	}
 	close(start)
 	wg.Wait()
+	if neighbour != nil && !neighbour.Failed() {
+		res.violate(sc, "c15/neighbour", "the neighbouring check, whose Custom generator function signals failures, did not fail", nil)
+	}
 	res.inc("rounds")
 	res.count("concurrent_checks", int64(G))
 	res.nontrivial(tr.gx.Desc)
